@@ -26,9 +26,6 @@ import RotoV.Lemmas.TcInferUnify
 import RotoV.Lemmas.TcInferSoundMain
 import RotoV.Lemmas.TcInferObls
 import RotoV.Lemmas.TcInferProg
-import RotoV.Lemmas.TcValueCycle
-import RotoV.Model.TcValueCyclePinned
-import RotoV.Generated.C07Cycle
 
 namespace RotoV.C07
 open RotoV.Typing RotoV.TcRules
@@ -573,65 +570,5 @@ example :
     (match inferFn ⟨[], [], []⟩ [(0, .int .u8)] (.int .u8) (.mk [] (some (.neg (.var 0)))) ⟨[], []⟩ with
       | .err .negateUnsigned => true
       | _ => false) = true := by decide +kernel
-
-
-/-! ## T6 — recursive constants (`find_compilation_order`, src/typechecker/value_cycle.rs)
-
-  The rule: a constant must not refer to itself, neither directly nor through
-  other constants or functions. On the reference graph the type checker
-  collects (`RefGraph`: an edge per use of a constant or function inside an
-  item): no constant `c` has a reference `c → d` with `d →* c`.
-  `Model/Tarjan.lean` is value_cycle.rs as written (`BTreeMap` iteration order,
-  the stack / index / lowlink state of Tarjan's algorithm, the two loops of
-  `find_compilation_order`). -/
-
-/-- **The algorithm is the one `Model/Tarjan.lean` was written from**: the
-    statements and the control flow of `find_compilation_order`, `tarjan`,
-    `strongly_connect`, `State::update_lowlink` and the fields of `VertexState`
-    / `State` (`Generated/C07Cycle.lean`, regenerated from
-    src/typechecker/value_cycle.rs on every run, against the pinned copy) — e.g.
-    that "is `w` on the stack" is asked of the stack itself
-    (`state.stack.contains(w)`), and that a vertex leaves the stack only when its
-    component is emitted. -/
-theorem value_cycle_as_modelled : C07Cycle.cycleSkeletons = TcValueCyclePinned.cycleSkeletons := rfl
-
-example : C07Cycle.cycleSkeletons.length = 6 := by decide
-
-/-- the executable oracle of the differential run (`TcValueCycle.ruleRejects`:
-    breadth-first closure, nothing of Tarjan's algorithm) fires only on a real
-    cycle through a constant -/
-theorem value_cycle_oracle_sound (g : Tarjan.Graph) (h : TcValueCycle.ruleRejects g = true) :
-    ∃ c d, c ∈ g.keys ∧ g.kind c = .const ∧ Tarjan.Edge g c d ∧ Tarjan.Reach g d c :=
-  TcValueCycle.ruleRejects_sound g h
-
-/- FULL STATEMENT (`recursive_constant_reported`): for every reference graph `g`,
-   every constant `c` with a reference `c → d` and `d →* c`:
-     ∃ c', g.kind c' = .const ∧ Tarjan.findCompilationOrder g = .ok (.recursive c')
-   Proved below from two facts about the components `tarjan` emits — every key is
-   in one, and an edge out of a component leads into it or into an earlier one
-   (`TcValueCycle.Closed`). -/
-
-/-- **T6 `recursive_constant_reported_partial`**: given that the emitted
-    components are complete and closed (`TcValueCycle.Closed`), a constant that
-    refers to something that leads back to it makes `find_compilation_order`
-    return `error_recursive_constant`. -/
-theorem recursive_constant_reported_partial (g : Tarjan.Graph) (comps : List (List Nat))
-    (ht : Tarjan.tarjan g = .ok comps) (hc : TcValueCycle.Closed g comps)
-    (c d : Nat) (hk : g.kind c = .const) (e : Tarjan.Edge g c d) (r : Tarjan.Reach g d c) :
-    ∃ c', g.kind c' = .const ∧ Tarjan.findCompilationOrder g = .ok (.recursive c') :=
-  TcValueCycle.reported_of_closed g comps ht hc c d hk e r
-
-/-- the seeded class in miniature, on the model: two mutually recursive
-    functions `0 ⇄ 1`, the constant `2` read by `0` and defined through `1` —
-    the component is closed through an edge to a vertex whose visit has ended
-    but which is still on the stack — in every one of the six rank orders -/
-example :
-    ([ (⟨[(0, [1, 2]), (1, [0]), (2, [1])], fun n => if n = 2 then .const else .func⟩ : Tarjan.Graph),
-       ⟨[(0, [1]), (1, [0, 2]), (2, [0])], fun n => if n = 2 then .const else .func⟩,
-       ⟨[(0, [2]), (1, [0, 2]), (2, [1])], fun n => if n = 0 then .const else .func⟩,
-       ⟨[(0, [1]), (1, [2]), (2, [0, 1])], fun n => if n = 0 then .const else .func⟩,
-       ⟨[(0, [1, 2]), (1, [2]), (2, [0])], fun n => if n = 1 then .const else .func⟩,
-       ⟨[(0, [2]), (1, [0]), (2, [0, 1])], fun n => if n = 1 then .const else .func⟩ ]).all
-      TcValueCycle.codeRejects = true := by decide
 
 end RotoV.C07
